@@ -62,7 +62,13 @@ _BREAKS = (0.25, 0.5, 1, 2, 4, 8, 16, 32)
 
 
 def v_quad(kind, r, alpha, normalized=True):
-    """Potential at radius r by direct quadrature of the Coulomb integral (mpmath, slow: ~50 ms)."""
+    """Potential at radius r by direct quadrature of the Coulomb integral (mpmath, slow: ~50 ms).
+
+    mp.quad works to an ABSOLUTE tolerance, so the integration variable is scaled to the width of the
+    density (s = L t, L = 1/sqrt(alpha)) and the integrand is divided by the constant rho(L); otherwise
+    integrands of size 1e-45 (unnormalised density at alpha = 1e30, normalised at alpha = 1e-30) would be
+    accepted at low order.  This is the same integral of the same documented density.
+    """
     with mp.workdps(DPS):
         rho = rho_mp(kind, alpha, normalized)
         a = mp.mpf(alpha)
@@ -70,23 +76,26 @@ def v_quad(kind, r, alpha, normalized=True):
         r = mp.mpf(r)
         if r == mp.inf:
             return mp.mpf(0)
+        rho_l = rho(L)
+        x = r / L
         vin = mp.mpf(0)
         if r > 0:
-            pts = [mp.mpf(0)] + [b * L for b in _BREAKS if b * L < r] + [r]
-            vin = mp.quad(lambda s: 4 * mp.pi * s * s * rho(s), pts) / r
-        # the integrand beyond r + 45 L is below e^{-2025}: truncated
-        pts = [r] + [r + b * L for b in _BREAKS] + [r + 45 * L]
-        vout = mp.quad(lambda s: 4 * mp.pi * s * rho(s), pts)
+            pts = [mp.mpf(0)] + [mp.mpf(b) for b in _BREAKS if b < x] + [x]
+            vin = 4 * mp.pi * L**3 * rho_l * mp.quad(lambda t: t * t * rho(L * t) / rho_l, pts) / r
+        # the integrand beyond x + 45 is below e^{-2025}: truncated
+        pts = [x] + [x + b for b in _BREAKS] + [x + 45]
+        vout = 4 * mp.pi * L**2 * rho_l * mp.quad(lambda t: t * rho(L * t) / rho_l, pts)
         return vin + vout
 
 
 def charge_quad(kind, alpha, normalized=True):
-    """Total charge 4 pi int_0^inf s^2 rho(s) ds by quadrature."""
+    """Total charge 4 pi int_0^inf s^2 rho(s) ds by quadrature (scaled as in v_quad)."""
     with mp.workdps(DPS):
         rho = rho_mp(kind, alpha, normalized)
         L = 1 / mp.sqrt(mp.mpf(alpha))
-        pts = [mp.mpf(0)] + [b * L for b in _BREAKS] + [45 * L]
-        return mp.quad(lambda s: 4 * mp.pi * s * s * rho(s), pts)
+        rho_l = rho(L)
+        pts = [mp.mpf(0)] + [mp.mpf(b) for b in _BREAKS] + [mp.mpf(45)]
+        return 4 * mp.pi * L**3 * rho_l * mp.quad(lambda t: t * t * rho(L * t) / rho_l, pts)
 
 
 # ------------------------------------------------------------------ layer 2: closed forms, mpmath
@@ -165,11 +174,11 @@ def v_ref(kind, r, alpha, normalized=True):
 
 
 # ------------------------------------------------------------------ self-test
-SELFTEST_ALPHAS = (1e-4, 0.013, 1.0, 37.5, 2.4e3, 1e6)
+SELFTEST_ALPHAS = (1e-30, 1e-4, 0.013, 1.0, 37.5, 2.4e3, 1e6, 3e17, 1e30)
 SELFTEST_X = (0.0, 1e-9, 0.03, 0.4, 1.0, 2.2, 4.5, 9.0, 60.0)
 
 
-def self_test(n_quad=18, n_dense=1500, seed=12345):
+def self_test(n_quad=24, n_dense=1500, seed=12345):
     """Raise RuntimeError when a layer disagrees with the previous one.
 
     * closed forms (mp) == quadrature of the documented density: ``n_quad`` points per kind drawn
@@ -196,7 +205,7 @@ def _self_test(n_quad, n_dense, seed):
             c = v_closed_mp(kind, r, a, nrm)
             if not abs(q - c) <= mp.mpf(10) ** -30 * abs(q):
                 raise RuntimeError(f"coulomb_ref: closed form != quadrature for kind={kind} alpha={a} r={r} normalized={nrm}: {q} vs {c}")
-        for a in (1e-4, 0.7, 1e6):
+        for a in (1e-30, 1e-4, 0.7, 1e6, 1e30):
             for nrm in (True, False):
                 q = charge_quad(kind, a, nrm)
                 c = mp.mpf(1) if nrm else 1 / norm_const_mp(kind, a)
@@ -213,7 +222,7 @@ def _self_test(n_quad, n_dense, seed):
             if not abs(q - c) <= mp.mpf(10) ** -30 * abs(q):
                 raise RuntimeError(f"coulomb_ref: closed form != quadrature at r={r} kind={kind}")
     worst = 0.0
-    alphas = 10.0 ** rng.uniform(-4, 6, n_dense)
+    alphas = np.where(rng.random(n_dense) < 0.5, 10.0 ** rng.uniform(-4, 6, n_dense), 10.0 ** rng.uniform(-30, 30, n_dense))
     xs = np.concatenate([10.0 ** rng.uniform(-12, 1.6, n_dense - 8), [0.0, 1e-4, 0.99e-4, 1e-300, 5.0, 6.0, 27.0, 1e9]])
     for k in range(n_dense):
         a = float(alphas[k])
